@@ -3,6 +3,8 @@ package exec
 import (
 	"go/types"
 
+	"golang.org/x/tools/go/ssa"
+
 	"symgo/smt"
 )
 
@@ -78,3 +80,52 @@ func init() {
 }
 
 func mathPow(x, y float64) float64 { return mathPowImpl(x, y) }
+
+
+// setupHTTPGlobals initialises the few net/http globals interpreted code reads (the package
+// initialiser itself is skipped: default transport, HTTP/2 tables, ...).
+func (e *Engine) setupHTTPGlobals(pkg *ssa.Package) {
+	if g := pkg.Var("NoBody"); g != nil {
+		if t := pkg.Type("noBody"); t != nil {
+			*e.globals[g] = Struct{}
+			e.okGlobal(g)
+		}
+	}
+	if g := pkg.Var("DefaultClient"); g != nil {
+		if t := pkg.Type("Client"); t != nil {
+			var cell Value = zero(t.Object().Type())
+			*e.globals[g] = &cell
+			e.okGlobal(g)
+		}
+	}
+	for _, n := range []string{"ErrUseLastResponse", "ErrBodyReadAfterClose", "ErrNoLocation", "ErrMissingFile"} {
+		if g := pkg.Var(n); g != nil {
+			*e.globals[g] = e.mkError(mkStr("net/http: "+n), nil)
+			e.okGlobal(g)
+		}
+	}
+}
+
+func init() {
+	extraModels = append(extraModels, func(m map[string]modelFn) {
+		// http.Client.Do = one RoundTrip of the configured transport (no redirects, cookies, timeouts)
+		m["(*net/http.Client).Do"] = func(fr *frame, a []Value) Value {
+			e := fr.e
+			cp := a[0].(*Value)
+			if cp == nil {
+				e.rtPanic("nil http.Client")
+			}
+			ct := e.Prog.ImportedPackage("net/http").Type("Client").Object().Type()
+			tr, _ := (*cp).(Struct)[structFieldIndex(ct, "Transport")].(Iface)
+			if tr.T == nil {
+				e.unsupported("http.Client without a Transport (no network in the model)")
+			}
+			e.Assumptions["http.Client.Do modelled as one Transport.RoundTrip (no redirects, cookies, timeouts)"] = true
+			res, ok := e.callMethod(fr, tr.T, tr.V, "RoundTrip", a[1])
+			if !ok {
+				e.unsupported("Transport without RoundTrip")
+			}
+			return res
+		}
+	})
+}
